@@ -93,9 +93,9 @@ CHECKS["C17"] = {
     "assumptions": ["goroutine schedules of the real program are sampled, not owned", "wall-clock based: bounds are one block of slack below and two above", "runs are isolated in network namespaces (the program binds localhost:6060) or serialised with a lock"],
 }
 CHECKS["C18"] = rapid("TestC18",
-    "case = one sequence of 3-14 operations on the real timer: Reset(h,v,d) with d in {0, 1-30 ms, 40-120 ms}, Extend(0-40 ms), Sleep(0-45 ms), non-blocking read, blocking read; model with interval bounds (never early w.r.t. latest reset + duration + extensions; expiry within 2 s after the deadline; zero duration fires at once; Height/View of the latest reset; no second expiry for one arming unless an Extend moved the deadline beyond the read); "
+    "case = one sequence of 3-14 operations on the real timer: Reset(h,v,d) with d in {0, 1-30 ms, 40-120 ms}, Extend(0-40 ms), Sleep(0-45 ms), non-blocking read, blocking read; model with interval bounds (never early w.r.t. latest reset + duration + extensions; expiry within 2 s after the deadline, and not more than 35 ms late at the same operation in each of 4 executions of the sequence; zero duration fires at once; Height/View of the latest reset; no second expiry for one arming unless an Extend moved the deadline beyond the read); "
     "non-trivial = the sequence contains a reset after an unread expiry, an extend after a zero-duration reset or an extend that re-arms a consumed timer; distinct = the rendered sequence",
-    150, 1500, assumptions=["real time: only the 'never early' direction is strict; lateness tolerance 2 s; an Extend racing the deadline within the s0..s1 microseconds is not judged"])
+    150, 1500, assumptions=["real time: only the 'never early' direction is strict; lateness: hard tolerance 2 s, 35 ms when it repeats in 4 executions; an Extend racing the deadline within the s0..s1 microseconds is not judged"])
 CHECKS["C20"] = {
     "custom": "c20",
     "rule": "case = one random behaviour generated by TLC's simulation mode from one of the five shipped .tla files as they are in the working tree, for RM={0,1,2,3}, MaxView in {1,2} (MaxUndeliveredMessages=6 for the multipool model) and every fault assignment the ASSUME clauses allow (none / one faulty / one dead / one faulty-and-dead, node drawn from VERIF_SEED); the spec's own TypeOK, InvTwoBlocksAccepted (InvTwoBlocksAcceptedAdvanced for centralizedCV) and InvFaultNodesCount are evaluated on every generated state under the shipped state constraint; "
